@@ -107,6 +107,13 @@ pub fn run(case: &ACase) -> Option<String> {
 pub fn run_mode(case: &ACase, counts_only: bool) -> Option<String> {
     // every call of a sequence over a well-formed plan returns: the harness systems never panic themselves and borrow nothing
     match catch_unwind(AssertUnwindSafe(|| run_inner(case, counts_only))) {
+        // the one report that rests on a duration is only made when a second, fresh run of the same sequence shows it again
+        // (a poll that was merely descheduled for that long does not repeat; a poll that blocks does)
+        Ok(Some(w)) if w.contains("instead of reporting true") => match catch_unwind(AssertUnwindSafe(|| run_inner(case, counts_only))) {
+            Ok(Some(w2)) if w2.contains("instead of reporting true") => Some(w2),
+            Ok(Some(other)) => Some(other),
+            _ => None,
+        },
         Ok(r) => r,
         Err(p) => {
             let m = crate::real::panic_msg(p);
